@@ -2258,7 +2258,9 @@ class UpdateRisk(Algo):
 
         target.risk[self.measure] = risk
         if depth < self.history:
-            target.risks.loc[target.now, self.measure] = risk
+            # a flat security that the engine no longer updates keeps an old
+            # "now": the row of the current date is the root's
+            target.risks.loc[target.root.now, self.measure] = risk
 
     def __call__(self, target):
         unit_risk_frame = target.get_data("unit_risk")[self.measure]
